@@ -139,16 +139,18 @@ type Recorder struct {
 	inside  bool
 	// PanicNext makes the next user function that is called panic (once): a user function may
 	// panic, the caller may recover, and the parsed function must be as good as new afterwards.
-	PanicNext bool
+	PanicNext int // panic at the PanicNext-th call from now (0 = never)
 }
 
 // UserPanic is the value a catalogue function panics with when asked to.
 type UserPanic struct{ Fn string }
 
 func (r *Recorder) maybePanic(name string) {
-	if r != nil && r.PanicNext && !r.inside {
-		r.PanicNext = false
-		panic(UserPanic{Fn: name})
+	if r != nil && r.PanicNext > 0 && !r.inside {
+		r.PanicNext--
+		if r.PanicNext == 0 {
+			panic(UserPanic{Fn: name})
+		}
 	}
 }
 
@@ -185,6 +187,10 @@ func BuildConfigOrder(rec *Recorder, funcs, accessor, accessorFirst bool) jsonpa
 	if accessor && accessorFirst {
 		cfg.SetAccessorMode()
 	}
+	if funcs && accessorFirst {
+		// the aggregate namesake of "fboth" registered BEFORE the filter functions ...
+		cfg.SetAggregateFunction("fboth", func(vs []interface{}) (interface{}, error) { return "AGGREGATE-NAMESAKE", nil })
+	}
 	if funcs {
 		for _, name := range gen.FilterNames {
 			name := name
@@ -220,6 +226,10 @@ func BuildConfigOrder(rec *Recorder, funcs, accessor, accessorFirst bool) jsonpa
 				return out, err
 			})
 		}
+	}
+	if funcs && !accessorFirst {
+		// ... or AFTER them: the order of registration is not part of what a Config says
+		cfg.SetAggregateFunction("fboth", func(vs []interface{}) (interface{}, error) { return "AGGREGATE-NAMESAKE", nil })
 	}
 	if accessor && !accessorFirst {
 		cfg.SetAccessorMode()
